@@ -262,5 +262,5 @@ pub fn run(env: &mut Env) {
         v.into_iter()
     });
     env.exhaustive_parts.push(format!("C05: all (month, day{}) x N in 0..=50 x 4 operations for years {}..={}", if t { "" } else { " in 1,2,27..31" }, y0, y1));
-    env.run_random::<Months>(if t { 40_000_000 } else { 2_000_000 });
+    env.run_random::<Months>(if t { 40_000_000 } else { 5_000_000 });
 }
